@@ -316,7 +316,7 @@ def c13_oracle(h, case, impl):
     for op, t, lines in split_steps(impl):
         if op[0] == "appiin":
             appiin = int(op[1])
-        if op[0] == "disconnect":
+        if op[0] in ("disconnect", "bounce"):
             reported, maybe = None, False
         cancel = False
         if op[0] == "rx" and op[2] == "none" and waiting == "unsol":
@@ -446,11 +446,58 @@ def c11_cases(h, rng, n):
                 ops.append(("disconnect",))
         sid = "c11_s_%d" % i
         out.append(Case(sid, script_text(sid, "outstation", cfg, ops), {"kind": "session", "cfg": cfg}))
+    # READs deferred during an unsolicited confirm wait: the one READ that is finally answered is answered for
+    # what IT selected, once (seeded change C11_c: a superseded READ's headers stay selected)
+    for i in range(max(6, n // 8)):
+        cfg = {"unsol": 1, "soltx": 2048, "confirm_ms": 1000, "retries": rng.choice(["0", "1"]), "retry_delay_ms": 500,
+               "sel": 0, "op": 0, "decode": rng.below(4)}
+        ops = [("add", "binary", 0, 1), ("add", "analog", 7, 2), ("add", "counter", 3, 0)]
+        seq = rng.below(16)
+        ops.append(("rx", MASTER, "none", hexs(frag(0, FN["confirm"], uns=True))))
+        ops.append(("rx", MASTER, "none", hexs(frag(seq, FN["enable"], read_classes((1, 2, 3)))))); seq = (seq + 1) & 15
+        ops.append(("update", "binary", 0, "1", 1, 100))
+        pool = [read_classes((0,)), read_classes((1, 2, 3)), read_classes((1,)), bytes([30, 0, 6]), bytes([1, 2, 0, 0, 0]),
+                bytes([20, 0, 6]), read_classes((1, 2, 3, 0))]
+        for _ in range(rng.range(2, 4)):
+            body = rng.choice(pool)
+            ops.append(("rx", MASTER, "none", hexs(frag(seq, FN["read"], body))))
+            if rng.chance(1, 3):
+                ops.append(("rx", MASTER, "none", hexs(frag(seq, FN["read"], body))))
+            seq = (seq + 1) & 15
+        if rng.chance(1, 2):
+            ops.append(("rx", MASTER, "none", hexs(frag(1, FN["confirm"], uns=True))))
+        else:
+            ops.append(("sleep", 1001))
+        ops.append(("rx", MASTER, "none", hexs(frag((seq - 1) & 15, FN["confirm"]))))
+        ops.append(("sleep", 2000))
+        sid = "c11_d_%d" % i
+        out.append(Case(sid, script_text(sid, "outstation", cfg, ops), {"kind": "session-deferred", "cfg": cfg}))
     return out
 
 
 def c11_oracle(h, case, impl):
     fails = []
+    reads = {}
+    for op, t, lines in split_steps(impl):
+        if op[0] == "rx" and op[2] == "none" and int(op[1]) == MASTER:
+            rb = bytes.fromhex(op[3]) if op[3] != "-" else b""
+            if len(rb) >= 2 and rb[1] == 1 and any(" > digest " in l and "obj=ok" in l and "rv=ok" in l for l in lines):
+                reads[rb[0] & 15] = rb
+        for (_, _, x) in txs(lines):
+            if len(x) >= 4 and x[1] == 129 and (x[0] & 0x80) and (x[0] & 15) in reads:
+                allowed = read_allowed_groups(reads[x[0] & 15])
+                got = response_groups(x)
+                if allowed is not None and got is not None and not got <= allowed:
+                    fails.append(("read-answered-with-unselected-objects", "the response to READ %s carries objects of groups %s that this READ did not select"
+                                  % (reads[x[0] & 15].hex(), sorted(got - allowed))))
+                try:
+                    import dbcommon as D
+                    ev, st = D.decode_response(x[4:])
+                    keys = [(a[0], a[2]) for a in st]
+                    if len(keys) != len(set(keys)):
+                        fails.append(("object-reported-twice", "a static object appears twice in one response fragment"))
+                except Exception:
+                    pass
     last_sol_tx = None
     series = None          # (next expected sequence, awaiting confirm of sequence)
     for op, t, lines in split_steps(impl):
